@@ -112,10 +112,12 @@ func (v *collator_[V]) GetMaximum() int {
 // Public
 
 func (v *collator_[V]) CompareValues(first V, second V) bool {
+	defer v.resetDepth() // Even when the maximum depth panic is raised.
 	return v.compareValues(ref.ValueOf(first), ref.ValueOf(second))
 }
 
 func (v *collator_[V]) RankValues(first V, second V) Rank {
+	defer v.resetDepth() // Even when the maximum depth panic is raised.
 	return v.rankValues(ref.ValueOf(first), ref.ValueOf(second))
 }
 
@@ -430,6 +432,10 @@ func (v *collator_[V]) rankFloats(first, second float64) Rank {
 		return GreaterRank
 	}
 	return EqualRank
+}
+
+func (v *collator_[V]) resetDepth() {
+	v.depth_ = 0
 }
 
 func (v *collator_[V]) rankInterfaces(first ref.Value, second ref.Value) Rank {
